@@ -2,6 +2,7 @@
 """For every validated mutant under seeded/_staging/<batch>/<m>: apply it to /repo, run every check's quick tier,
 record which checks report which signatures, undo it, and file it as seeded/<prop>-<batch>-<m>/."""
 import json, os, re, shutil, subprocess, sys, time
+from concurrent.futures import ThreadPoolExecutor
 ROOT = "/verif"
 PROPS = [f"C{i:02d}" for i in range(1, 21)]
 def sh(cmd, **kw): return subprocess.run(cmd, shell=True, capture_output=True, text=True, **kw)
@@ -23,12 +24,17 @@ for d in targets:
     if sh(f"git -C /repo apply {patch}").returncode != 0:
         print("does not apply", d); continue
     detected = {}
+    def run_check(p):
+        t0 = time.time()
+        r = sh(f"./check {p} --tier quick --no-evidence", cwd=ROOT)
+        sigs = sorted(set(re.findall(r"signature: (\S+)", r.stderr + r.stdout)))
+        return p, {"exit": r.returncode, "signatures": sigs[:12], "n_signatures": len(sigs), "wall_s": round(time.time() - t0, 1)}
     try:
-        for p in PROPS:
-            t0 = time.time()
-            r = sh(f"./check {p} --tier quick --no-evidence", cwd=ROOT)
-            sigs = sorted(set(re.findall(r"signature: (\S+)", r.stderr + r.stdout)))
-            detected[p] = {"exit": r.returncode, "signatures": sigs[:12], "n_signatures": len(sigs), "wall_s": round(time.time() - t0, 1)}
+        p0, v0 = run_check(PROPS[0])   # also (re)builds the driver once
+        detected[p0] = v0
+        with ThreadPoolExecutor(max_workers=5) as ex:
+            for p, v in ex.map(run_check, PROPS[1:]):
+                detected[p] = v
     finally:
         sh("git -C /repo checkout HEAD -- .")
     os.makedirs(out, exist_ok=True)
@@ -36,6 +42,7 @@ for d in targets:
     for f in os.listdir(d):
         if f.startswith("demo"): shutil.copy(os.path.join(d, f), os.path.join(out, f))
     caught = [p for p, v in detected.items() if v["exit"] == 1]
+    INITIALLY_MISSED = {'C01a/m2': 'C01 had only lower-case tag names: every tag of the HTML/SVG tables was added', 'C02a/m2': 'no spread-of-call child on a component: C03 shapes spreadCall/spreadThenText added', 'C12a/m1': 'C12 did not include the reassignment-capture family: C06/C10 workloads added to C12', 'C04b/m1': 'no directive whose own name starts with v: spellings v-visible, vValidate, v-vv-dir, v-v added', 'C05b/m2': 'v-models was always the last attribute: neighbours after the model (plain, spread, explicit listener) added', 'C06b/m2': 'no user binding named like the captured copy (_x): collider added', 'C09b/m2': 'no sibling statements inside the same statement list as the JSX: inner-sibling contexts added to C06/C10 (and through them C09)', 'C10b/m1': 'no assignment with a (parenthesised) JSX right-hand side to a same-named variable in another scope: distractors added', 'C10b/m2': 'no distractor inside the statement\'s own statement list: *Inner statement families added', 'C11c/m2': 'no optional-chain / template / binary / new / array child shapes: added to C03 and C11', 'C16c/m1': 'local scopes were function declarations only: arrow, function expression, IIFE, object and class method scopes added', 'C17c/m2': 'one component per module: same-named aliases in two scopes with two components added', 'C18c/m1': 'Function-typed props were exactly Function: unions containing a function type added', 'C19c/m1': 'extends chains were interfaces only: extends of object-type / intersection aliases added', 'C19c/m2': 'one component per module: modules with 2-3 components sharing a base emits type added', 'C20c/m1': 'spread argument lists always carried two elements: setup-only and head-spread shapes added', 'C20c/m2': 'object literals had at most one spread: literals with two or three spreads added'}
     meta = {
         "property": prop, "summary": meta_in.get("summary"), "needs": meta_in.get("needs"), "files_touched": meta_in.get("files_touched"),
         "origin": f"independent sub-agent, batch {batch}, given only the property text" + ("; patch re-based by hand onto the repaired tree (same change)" if rebased else ""),
@@ -43,6 +50,7 @@ for d in targets:
         "ran": "tools/validate_mutant.sh (scratch worktree: demo passes clean, 81 fixtures pass with the patch, demo fails with the patch); then `git -C /repo apply patch.diff`, `./check <Cxx> --tier quick --no-evidence` for all 20 checks, `git -C /repo checkout HEAD -- .`",
         "detected_by": {p: v for p, v in detected.items() if v["exit"] == 1},
         "caught_by_own_property_check": detected[prop]["exit"] == 1,
+        "initially_missed_by_own_check": INITIALLY_MISSED.get(f"{batch}/{m}"),
         "not_detected_by": [p for p, v in detected.items() if v["exit"] == 0],
         "other_exits": {p: v["exit"] for p, v in detected.items() if v["exit"] not in (0, 1)},
     }
